@@ -71,6 +71,9 @@ def check_stateless(db, chk, rule: str, modnames: Iterable[str], scope: Optional
             sv_ = H.shared_mutable_values(f)
             chk.ob(rule, f"{mn}:{q}: no container is built whose keys / slots share one mutable object", not sv_, mod.loc(f), found=sv_ or "none", accepted="one fresh list / dict per key ({k: [] for k in keys}, defaultdict(list))",
                    why="dict.fromkeys(ranks, []) gives every rank the SAME list: what is appended for one rank shows up under all of them", key=f"{mn}:{q}|shared-mutable", nontrivial=False)
+            du_ = H.dead_updates_after_loop(f)
+            chk.ob(rule, f"{mn}:{q}: no loop-carried value is advanced only AFTER its loop", not du_, mod.loc(f), found=du_ or "none", accepted="the update of an offset / counter read by the loop sits inside the loop",
+                   why="`offset += count` placed after the loop leaves every iteration with the initial offset: each rank / group is given the first one's slice", key=f"{mn}:{q}|dead-update", nontrivial=False)
             cf_ = H.cross_iteration_flows(f)
             chk.ob(rule, f"{mn}:{q}: a rank's result does not read what an earlier rank's iteration stored (per-rank loops are independent)", not cf_, mod.loc(f), found=cf_,
                    accepted="containers filled in a per-rank loop are only read after the loop (or under the key stored earlier in the same iteration)",
